@@ -79,7 +79,11 @@ pub fn run(ctx: &mut Ctx) {
             }
             for mix in MIXES.iter().take(if ctx.quick() { 3 + (s % 3) as usize } else { 5 }) {
                 let trace = scenario::interleave(&mut r, &conns, *mix);
-                let mut runner = Runner::new(which, 64, with_db);
+                // half of the scenarios run the interleaving on an analyzer whose configured
+                // connection capacity is exactly the number of connections ("within the configured
+                // connection capacity" includes the capacity itself)
+                let cap = if s % 4 >= 2 { nconn } else { 64 };
+                let mut runner = Runner::with_tracker(which, cap, 64, with_db);
                 let mut got: Vec<Vec<Vec<String>>> = vec![Vec::new(); conns.len()];
                 let mut panic = None;
                 for tf in &trace {
@@ -105,7 +109,7 @@ pub fn run(ctx: &mut Ctx) {
                     ctx.judge(same, &[], "a connection's results differ between isolated and interleaved analysis", || {
                         let k = iso[ci].iter().zip(got[ci].iter()).position(|(a, b)| a != b).unwrap_or(0);
                         json!({
-                            "scenario": s, "analyzer": format!("{which:?}"), "mix": format!("{mix:?}"), "with_db": with_db,
+                            "scenario": s, "analyzer": format!("{which:?}"), "mix": format!("{mix:?}"), "with_db": with_db, "capacity": cap,
                             "connection": ci, "kind": format!("{:?}", c.kind), "endpoints": c.ep.key(),
                             "kinds_in_scenario": conns.iter().map(|c| format!("{:?}", c.kind)).collect::<Vec<_>>(),
                             "first_differing_frame": k,
@@ -114,7 +118,7 @@ pub fn run(ctx: &mut Ctx) {
                             "trace_order": trace.iter().map(|t| t.conn).collect::<Vec<_>>(),
                         })
                     });
-                    ctx.bucket(&format!("{which:?}/{mix:?}/{:?}/{}", c.kind, if reported > 0 { "reports" } else { "silent" }));
+                    ctx.bucket(&format!("{which:?}/{mix:?}/{:?}/{}{}", c.kind, if reported > 0 { "reports" } else { "silent" }, if cap == nconn { "/capacity=connections" } else { "" }));
                     if reported > 0 {
                         // which other kinds were present: the interesting neighbourhoods
                         let mut others: Vec<String> = conns.iter().enumerate().filter(|(j, _)| *j != ci).map(|(_, o)| format!("{:?}", o.kind)).collect();
@@ -147,7 +151,7 @@ pub fn spec() -> PropSpec {
         shards: super::shards_16,
         rule: "seeded scenarios of 2..8 scripted connections (TCP handshakes with timestamps, multi-segment TLS ClientHellos, HTTP/1.x and HTTP/2 exchanges incl. hostile HPACK blocks with dynamic-table inserts/references/size updates, garbage and truncated connections), each analysed alone and in 3..5 order-preserving interleavings (sequential, round-robin, riffle, hostile-first, bursts) on the TCP, HTTP, TLS and unified analyzers with the virtual clock giving every frame the same arrival time in both runs; per-frame canonical results of each connection are compared; a bucket is a distinct (analyzer, interleaving, connection kind, reports/silent) or (analyzer, kind, set of neighbouring kinds)",
         assumptions: &[
-            "connection capacity (64) exceeds the number of connections per scenario; scenarios are far shorter than the 20/30/60 s TTLs, slower ones are discarded as inconclusive",
+            "connection capacity is 64, or (half of the scenarios) exactly the number of connections of the scenario; the caller-supplied uptime tracker of the TCP analyzer's per-packet entry always holds 64 entries; scenarios are far shorter than the 20/30/60 s TTLs, slower ones are discarded as inconclusive",
             "parsing_time_ns and HashMap iteration order are excluded from the canonical form",
             "connections of one scenario have pairwise distinct 4-tuples",
         ],
